@@ -157,16 +157,22 @@ def _lookup_comm(cid):
     return WORLD.comms[cid]
 
 
+NODES = None  # optional list: processor name of every rank (multi-node layouts)
+
+
 def Get_processor_name():
+    if NODES:
+        return NODES[getattr(threading.current_thread(), "mpi_rank", 0)]
     return "node0"
 
 
 # ------------------------------------------------------------------ controller ---
 
 
-def run_world(size, main, *, send_mode="eager", coll_mode="full", prefix=(), horizon=200000):
+def run_world(size, main, *, send_mode="eager", coll_mode="full", prefix=(), horizon=200000, nodes=None):
     """Run main(rank) on `size` ranks. Returns dict(results, errors, deadlock, trace, leftover)."""
-    global WORLD
+    global WORLD, NODES
+    NODES = list(nodes) if nodes else None
     w = WORLD = World(size, send_mode, coll_mode, prefix)
     COMM_WORLD.seq = {}
     results = [None] * size
